@@ -143,6 +143,13 @@ def union_fault_stream(rng, tree, union_qnames, per_kind=1):
     base_paths = [p for p, n in G.tree_paths(tree) if n["q"] in union_qnames]
     if not base_paths:
         return
+    def put(n, k, v):
+        for kv in n["a"]:
+            if kv[0] == k:
+                kv[1] = v
+                return
+        n["a"].append([k, v])
+
     for _ in range(per_kind):
         for kind in UNION_KINDS:
             t = copy.deepcopy(tree)
@@ -150,7 +157,7 @@ def union_fault_stream(rng, tree, union_qnames, per_kind=1):
             node = G.tree_at(t, path)
             others = [G.tree_at(t, p) for p in base_paths if p != path]
             if kind == "u_attr":
-                node["a"].append([rng.choice(["zzz", "{urn:a}zz", "id"]), rng.choice(["v", "", "1"])])
+                put(node, rng.choice(["zzz", "{urn:a}zz", "id"]), rng.choice(["v", "", "1"]))
             elif kind == "u_text_only":
                 node["c"], node["t"] = [], rng.choice(["12", "true", "abc", "", " 7 ", "0", "false", None, "1.5", "x y"])
                 if rng.random() < 0.6:
@@ -161,9 +168,9 @@ def union_fault_stream(rng, tree, union_qnames, per_kind=1):
                 o = rng.choice(others)
                 node["c"], node["t"], node["a"] = copy.deepcopy(o["c"]), o["t"], copy.deepcopy(o["a"])
             elif kind == "u_xsi_type":
-                node["a"].append(["{%s}type" % XSI, rng.choice(["Leaf0", "Leaf1", "Mid0", "Root", "Leaf0Ext", "xs:int", "zz:T", "", "{urn:a}Leaf0"])])
+                put(node, "{%s}type" % XSI, rng.choice(["Leaf0", "Leaf1", "Mid0", "Root", "Leaf0Ext", "xs:int", "zz:T", "", "{urn:a}Leaf0"]))
             elif kind == "u_nil":
-                node["a"].append(["{%s}nil" % XSI, rng.choice(["true", "false"])])
+                put(node, "{%s}nil" % XSI, rng.choice(["true", "false"]))
             elif kind == "u_extra_child":
                 node["c"].insert(rng.randint(0, len(node["c"])), copy.deepcopy(rng.choice(G.UNKNOWN_SUBTREES)))
             elif kind == "u_drop_child" and node["c"]:
@@ -437,6 +444,8 @@ def xinclude_fault_stream(rng, main: bytes, files: dict):
     cut = rng.randrange(1, max(2, len(part)))
     yield "part_truncated", main, {"part.xml": part[:cut]}, "syntax"
     yield "part_unknown_encoding", main, {"part.xml": b'<?xml version="1.0" encoding="UTF78"?>' + part}, {"raised": "LookupError"}
+    yield "part_multibyte_encoding", main, {"part.xml": b'<?xml version="1.0" encoding="utf-7"?>' + part}, {"raised": "ValueError"}
+    yield "main_multibyte_encoding", b'<?xml version="1.0" encoding="shift_jis"?>' + main, files, {"raised": "ValueError"}
     yield "part_garbage", main, {"part.xml": bytes(rng.randrange(256) for _ in range(12))}, "syntax"
     yield "main_truncated", main[: rng.randrange(1, len(main))], files, "syntax"
     yield "main_unknown_encoding", b'<?xml version="1.0" encoding="UTF78"?>' + main, files, {"raised": "LookupError"}
